@@ -91,6 +91,8 @@ type State struct {
 	curTID  int       // 0 = the harness entry
 	nextTID int
 	stalled int
+	settling bool // vSettle in progress
+	settled  bool
 	timers  []timerRec
 	vtime   *Term // virtual nanoseconds elapsed
 	hashRecs []*hashRec
